@@ -66,7 +66,7 @@ pub fn run(ctx: &Ctx, rep: &mut Report) {
                 }
                 let app_sc = sc_addr(app);
                 ctr += 1;
-                let chain = rng.pick(&[b"ethereum".to_vec(), b"e".to_vec(), b"".to_vec()]).clone();
+                let chain = rng.pick(&[b"ethereum".to_vec(), b"e".to_vec(), b"".to_vec(), b"Ethereum-Sepolia".to_vec(), "Ætherium ü".as_bytes().to_vec()]).clone();
                 let id = format!("msg-{}-{}", round, ctr).into_bytes();
                 let src = format!("0x{}", hex(&rng.bytes(6))).into_bytes();
                 let payload = rng.bytes_upto(80);
